@@ -28,7 +28,8 @@ EXPLANATION = (
 )
 # obligations added during the build phase (seeding rounds, twins, mutation analysis)
 ADDED_IN_BUILD = ' Also: generator arguments bound by name (none left to a default); loop bounds with min / max and negated extrema are split into affine cases. zeroing (F-30) as in C07.'
-EXPLANATION = EXPLANATION + ADDED_IN_BUILD
+ADDED_IN_ROUND_9 = " Round 9: loop-condition as in C07 (three spellings of 'some remaining score is strictly above the threshold', test at the top or in the middle of the body)."
+EXPLANATION = EXPLANATION + ADDED_IN_BUILD + ADDED_IN_ROUND_9
 
 ASSUMPTIONS = [
     "Python's ast module and evaluation-order/argument-binding semantics as implemented in skverif/symex.py",
